@@ -28,7 +28,7 @@ PublicAbsorbing == [][(~s.private /\ s.kind \in KeyKinds) => ~s'.private]_vars
 PublicRequestedIsPublic == [][\A c \in PublicObjectCalls \cap CallsOf(s) : ~Act(Deviations, s, c).st.private]_vars
 TypeOK == s.kind \in Kinds /\ Held(s) \subseteq Enc /\ s.private \in BOOLEAN
 \* ---- what the named deviations can leak -----------------------------------------------------------------------------
-WifNeedsCachingCall == (~s.private /\ "wif" \in Held(s)) => Used({"wif", "as_dict_priv", "info"})
+WifNeedsCachingCall == (~s.private /\ "wif" \in Held(s)) => Used({"wif", "as_dict_priv", "info", "reflect"})
 ScalarNeedsSigning == (~s.private /\ Held(s) \cap ScalarEnc # {}) => Used({"sign", "mktx_pub", "mktx_addr", "mktx_priv"})
 XprvNeverHeld == ~s.private => "xprv" \notin Held(s)
 KeyCopyHoldsOnlyWif == (~s.private /\ s.kind \in KeyKinds) => Held(s) \subseteq {"wif"}
